@@ -66,6 +66,8 @@ type sitesFile struct {
 	LockShims    int      `json:"lock_shims"`
 	OnceShims    int      `json:"once_shims"`
 	ChanShims    int      `json:"chan_shims"`
+	SelectShims  int      `json:"select_shims"`
+	WGShims      int      `json:"waitgroup_shims"`
 	ClockShims   int      `json:"clock_shims"`
 	GoStmts      int      `json:"go_statements"`
 	GoStmtLocs   []string `json:"go_statement_locs"`
@@ -142,6 +144,7 @@ func main() {
 
 	sf := sitesFile{Module: mods[0].Module.Path}
 	nextSite := 1
+	nextSelect := 1
 	for _, p := range mods {
 		sf.Packages = append(sf.Packages, p.ImportPath)
 		var files []*ast.File
@@ -320,6 +323,7 @@ func main() {
 			timeName := "time"
 			skipCalls := map[*ast.CallExpr]bool{}
 			skipBlocks := map[*ast.BlockStmt]bool{}
+			selLabelPos := map[*ast.SelectStmt]token.Pos{}
 			ast.Inspect(f, func(n ast.Node) bool {
 				switch x := n.(type) {
 				case *ast.FuncDecl:
@@ -331,8 +335,38 @@ func main() {
 					skipBlocks[x.Body] = true
 				case *ast.TypeSwitchStmt:
 					skipBlocks[x.Body] = true
+				case *ast.LabeledStmt:
+					if sel, ok := x.Stmt.(*ast.SelectStmt); ok {
+						selLabelPos[sel] = x.Pos()
+					}
 				case *ast.SelectStmt:
 					skipBlocks[x.Body] = true
+					// A select without a default clause blocks: under the scheduler the
+					// task must hand the token on instead.  It becomes a polling select:
+					//   __simselN: select { ...cases...; default: __simrt.SelectPark(); goto __simselN }
+					// and every case body starts with __simrt.SelectDone().  (Which of
+					// several ready cases fires stays the Go runtime's choice.)
+					hasDefault := false
+					for _, c := range x.Body.List {
+						if cc, ok := c.(*ast.CommClause); ok && cc.Comm == nil {
+							hasDefault = true
+						}
+					}
+					if !hasDefault && len(x.Body.List) > 0 {
+						at := x.Pos()
+						if lp, ok := selLabelPos[x]; ok {
+							at = lp
+						}
+						lbl := fmt.Sprintf("__simsel%d", nextSelect)
+						nextSelect++
+						add(offset(at), offset(at), lbl+": ")
+						for _, c := range x.Body.List {
+							cc := c.(*ast.CommClause)
+							add(offset(cc.Colon)+1, offset(cc.Colon)+1, " __simrt.SelectDone(); ")
+						}
+						add(offset(x.Body.Rbrace), offset(x.Body.Rbrace), "; default: __simrt.SelectPark(); goto "+lbl+"\n")
+						sf.SelectShims++
+					}
 				case *ast.BlockStmt:
 					if !skipBlocks[x] {
 						insertYields(x.List)
@@ -343,6 +377,12 @@ func main() {
 					insertYields(x.Body)
 				case *ast.RangeStmt:
 					if tv, ok := info.Types[x.X]; ok && tv.Type != nil {
+						if _, isChan := tv.Type.Underlying().(*types.Chan); isChan {
+							// for v := range ch  ->  for v := range __simrt.ChanSeq(ch)
+							add(offset(x.X.Pos()), offset(x.X.Pos()), "__simrt.ChanSeq(")
+							add(offset(x.X.End()), offset(x.X.End()), ")")
+							sf.ChanShims++
+						}
 						if _, isMap := tv.Type.Underlying().(*types.Map); isMap {
 							add(offset(x.X.Pos()), offset(x.X.Pos()), "__simrt.MapSeq(")
 							add(offset(x.X.End()), offset(x.X.End()), ")")
@@ -420,6 +460,10 @@ func main() {
 						}
 						add(offset(x.Pos()), offset(x.End()), "__simrt.Cond"+sel.Sel.Name+"("+arg+")")
 						sf.LockShims++
+					case recv == "WaitGroup" && sel.Sel.Name == "Wait" && len(x.Args) == 0:
+						xsrc := string(srcs[full][offset(sel.X.Pos()):offset(sel.X.End())])
+						add(offset(x.Pos()), offset(x.End()), fmt.Sprintf("__simrt.WGWait((%s).Wait)", xsrc))
+						sf.WGShims++
 					case recv == "Once" && sel.Sel.Name == "Do" && len(x.Args) == 1:
 						add(offset(x.Pos()), offset(x.Pos()), "__simrt.OnceDo(")
 						add(offset(sel.End()), offset(x.Lparen)+1, ", ")
@@ -492,6 +536,6 @@ func main() {
 	if err := os.WriteFile(*sitesOut, jb, 0o644); err != nil {
 		die("%v", err)
 	}
-	fmt.Fprintf(os.Stderr, "cvssinst: %d packages, %d files, %d yield sites (%d hot), %d map ranges, %d lock shims, %d once shims, %d channel shims, %d clock shims, %d go statements\n",
-		len(mods), sf.Files, len(sf.Sites), sf.HotSites, sf.MapRanges, sf.LockShims, sf.OnceShims, sf.ChanShims, sf.ClockShims, sf.GoStmts)
+	fmt.Fprintf(os.Stderr, "cvssinst: %d packages, %d files, %d yield sites (%d hot), %d map ranges, %d lock shims, %d once shims, %d channel shims, %d select shims, %d waitgroup shims, %d clock shims, %d go statements\n",
+		len(mods), sf.Files, len(sf.Sites), sf.HotSites, sf.MapRanges, sf.LockShims, sf.OnceShims, sf.ChanShims, sf.SelectShims, sf.WGShims, sf.ClockShims, sf.GoStmts)
 }
